@@ -890,3 +890,34 @@ def selfcheck_diag(t, reps=10, seed=0):
                 and np.allclose([Expr.of(x).v({"w": wB, "V": VB}) for x in t["fse_v"]], v_, rtol=1e-12)):
             return ["fse"]
     return []
+
+
+# ------------------------------------------------------------------ utils.quat_product (C14)
+def trace_quat():
+    from pydrex import utils as U
+
+    p, q = sym_vector("p", 4), sym_vector("q", 4)
+    return [Expr.of(x) for x in U.quat_product(p, q)]
+
+
+def emit_quat(t, path=None):
+    lines = ["-- GENERATED on every run by harness/trace/tracer.py from /repo/src/pydrex/utils.py -- do not edit",
+             "import ModelR.Quat", "noncomputable section", "namespace ModelR", "",
+             "def traced_quatProduct (p q : Quat) : Quat := fun i => match i with",
+             *[f"  | {i} => {e.s}" for i, e in enumerate(t)], "", "end ModelR", ""]
+    text = "\n".join(lines)
+    path = path or (GEN / "TracedQuat.lean")
+    if not path.exists() or path.read_text() != text:
+        path.write_text(text)
+    return text
+
+
+def selfcheck_quat(t, reps=10, seed=0):
+    from pydrex import utils as U
+
+    rng = np.random.default_rng(seed)
+    for _ in range(reps):
+        env = {"p": rng.normal(size=4), "q": rng.normal(size=4)}
+        if not np.allclose([e.v(env) for e in t], np.asarray(U.quat_product(env["p"], env["q"]), float), rtol=1e-13, atol=1e-300):
+            return ["quat_product"]
+    return []
